@@ -3,7 +3,8 @@ explicit trees (every field of the C struct), an INDEPENDENT python renderer of 
 functions must produce, a strict RFC 8259 reader (python's json with the lenient extensions
 switched off), a string-aware whitespace stripper, generators aimed at the case splits of
 cJSON.c's printer and of coq/PrintProofs.v."""
-import json, math, random, struct
+import json, math, random, struct, sys
+sys.setrecursionlimit(20000)
 from .common import *
 
 AREA = 'print'
@@ -160,7 +161,7 @@ def num_close(x, d):
     except OverflowError: return False
     if d == 0: return fx == 0
     if d == math.floor(d) and abs(d) < 1e15: return fx == d
-    return abs(fx - d) <= abs(d) * EPS
+    return abs(fx - d) <= max(abs(fx), abs(d)) * EPS      # one part in 2^52, as compare_double measures it
 
 def value_matches(v, n):
     """does the strictly decoded value v equal the tree n (non-finite numbers as null)?  returns None or a reason"""
